@@ -45,6 +45,7 @@ pub(crate) fn one_call(window_type: WindowType) {
         step += 1;
     }
     let granted = crate::limiter::verif_kani_in_limiter::model_last_try_granted();
+    assert!(mon().unready_calls == 0, "[C20.ratelimiter_ready_instance] the call goes to the instance on which readiness was observed");
     if let Some(r) = &out {
         match r {
             Ok(v) => assert!(granted && mon().calls == 1 && mon().last_req == req && script.outcomes[0] == Ok(*v), "[C15.admitted_reaches_inner_once] an admitted call reaches the wrapped service exactly once, unchanged"),
